@@ -232,6 +232,23 @@ def check(case, ctx):
         if st != 'ok' or not lib.close(got, ref, tol):
             ctx.fail('mass', ref, got, call=call, deviation=extra['dev'], adducts=adducts, monoisotopic=mono,
                      precision=prec, avg_minus_mono_of_mods=_avg_mono_gap(P, ref_kw.get('ion', 'p')))
+        # the same request on ONE parsed object that was asked other things first (m/z at another charge, a fragment ion
+        # mass, its composition): the answer is the answer for the text, and the object still writes the text
+        if st == 'ok' and len(slots) <= 2:
+            st0, obj = lib.call(p.parse, s)
+            if st0 == 'ok':
+                for q in (lambda: p.mz(obj, charge=3), lambda: p.mass(obj, charge=2, ion_type='b'), lambda: p.comp_mass(obj),
+                          lambda: p.mz(obj, charge=1, monoisotopic=False)):
+                    lib.call(q)
+                a1 = lib.call(p.mass, obj, **kw)
+                ctx.evals += 5
+                if a1[0] != 'ok' or a1[1] != got:
+                    ctx.fail('reused-object-mass', got, a1[1], call=call,
+                             note='mz(charge=3), mass(charge=2, ion b), comp_mass, mz(charge=1, average) were asked of the object first')
+                else:
+                    st9, s9 = lib.call(obj.serialize)
+                    if st9 != 'ok' or s9 != p.parse(s).serialize():
+                        ctx.fail('reused-object-changed', p.parse(s).serialize(), s9, call=call)
         z = ref_kw.get('charge', P.get('charge'))
         if z is not None and z > 0:
             kw2 = dict(kw)
